@@ -132,7 +132,11 @@ def run_kernel(case, t, k):
                 fn(flat[half * nch :], m, half)
             else:
                 fn(flat, m, 0)
-            return (m.view(np.uint8).reshape(-1).copy(),)
+            # a second, fresh accumulator whose first block arrives with a non-zero start index (compared across schedules
+            # only: whatever it is defined to hold, it must not depend on the thread count)
+            m2 = np.zeros(nch, dtype=kernels.moments_dtype)
+            fn(flat, m2, 3)
+            return (m.view(np.uint8).reshape(-1).copy(), m2.view(np.uint8).reshape(-1).copy())
         if name == "down1d":
             f = down1d_factor(case, flat.size)
             return (kernels.downsample_1d_mean_parallel(flat, f),)
